@@ -1,23 +1,26 @@
 #!/usr/bin/env python3
 """Run the registered quick checks against the seeded property-breaking changes under /verif/seeded.
 
-For each /verif/seeded/<name>/ (patch.diff + meta.json): apply the patch to /repo (git apply), run
-`./check <property> --tier quick` (plus any extra properties listed in meta.json "also"), record exit
-code and violation keys, and undo the patch straight afterwards (git checkout -- .).  /repo must be
-clean before and is left clean.  Never commits anything.
+For each /verif/seeded/<name>/ (patch.diff + meta.json) the check of the property it breaks (plus any
+listed under "also") is run against a PATCHED COPY of /repo inside a private mount namespace:
+a copy of /repo's HEAD with the patch applied is bind-mounted over /repo, and /verif/target*,
+/verif/work, /verif/evidence, /verif/replays are bind-mounted to seed-only directories, so /repo
+itself is never touched, nothing running concurrently sees the change, and no build artefact of a
+mutated tree can be mistaken for one of the real tree.  (Equivalent to: git -C /repo apply <patch>;
+./check <P>; git -C /repo checkout -- . — which is what to do by hand.)
 
 usage: seedtest.py [name ...]        (default: all)
 Writes /verif/seeded/RESULTS.json and prints a table.
 """
-import json, os, subprocess, sys, time
+import json, os, shutil, signal, subprocess, sys, time
 
 ROOT = os.path.dirname(os.path.dirname(os.path.abspath(__file__)))
 SEEDED = os.path.join(ROOT, "seeded")
+SCRATCH = "/tmp/verif-seedrun"
+BIND_DIRS = ["target", "target-probe-start", "target-probe-thread", "work", "evidence", "replays"]
 
 
 def sh(cmd, timeout=None, **kw):
-    # own process group, so that a timed-out check does not leave harness shards running on a mutated tree
-    import signal
     p = subprocess.Popen(cmd, shell=True, stdout=subprocess.PIPE, stderr=subprocess.STDOUT, text=True, start_new_session=True, **kw)
     try:
         out, _ = p.communicate(timeout=timeout)
@@ -28,47 +31,56 @@ def sh(cmd, timeout=None, **kw):
     return subprocess.CompletedProcess(cmd, p.returncode, out, None)
 
 
-def repo_clean():
-    return sh("git -C /repo status --porcelain --untracked-files=no").stdout.strip() == ""
+def fresh_repo_copy(dst):
+    shutil.rmtree(dst, ignore_errors=True)
+    os.makedirs(dst)
+    # tracked files of HEAD only (no target/, no leftovers of test runs)
+    r = sh(f"git -C /repo archive HEAD | tar -x -C {dst}")
+    if r.returncode != 0:
+        raise SystemExit("cannot copy /repo: " + r.stdout)
+    # test fixtures that tests/harnesses create lazily live in ignored dirs; keep the layout identical
+    sh(f"cd {dst} && git init -q && git add -A && git -c user.email=s@e -c user.name=s commit -qm base")
 
 
 def main():
     names = sys.argv[1:] or sorted(d for d in os.listdir(SEEDED) if os.path.isdir(os.path.join(SEEDED, d)))
-    if not repo_clean():
-        print("/repo has uncommitted changes; refusing")
-        return 2
     results = {}
     if os.path.exists(os.path.join(SEEDED, "RESULTS.json")):
         results = json.load(open(os.path.join(SEEDED, "RESULTS.json")))
+    os.makedirs(SCRATCH, exist_ok=True)
+    repo_copy = os.path.join(SCRATCH, "repo")
+    head = sh("git -C /repo rev-parse --short HEAD").stdout.strip()
     for n in names:
         d = os.path.join(SEEDED, n)
         meta = json.load(open(os.path.join(d, "meta.json")))
         props = [meta["property"]] + meta.get("also", [])
         patch = os.path.join(d, "patch.diff")
-        a = sh(f"git -C /repo apply --whitespace=nowarn {patch}")
+        fresh_repo_copy(repo_copy)
+        a = sh(f"git -C {repo_copy} apply --whitespace=nowarn {patch}")
         if a.returncode != 0:
-            results[n] = dict(error="patch does not apply: " + a.stdout[-300:])
+            results[n] = dict(error="patch does not apply to /repo HEAD " + head + ": " + a.stdout[-300:])
             print(f"{n:28s} PATCH DOES NOT APPLY")
-            sh("git -C /repo checkout -- .")
             continue
-        try:
-            res = {}
-            for p in props:
-                t0 = time.time()
-                r = sh(f"./check {p} --tier quick", cwd=ROOT, timeout=1800)
-                keys = [l.split("key=")[1].split()[0] for l in r.stdout.splitlines() if l.strip().startswith("key=")]
-                res[p] = dict(exit=r.returncode, keys=keys, wall_s=round(time.time() - t0, 1),
-                              tail=r.stdout.strip().splitlines()[-1][:300] if r.stdout.strip() else "")
-            results[n] = dict(property=meta["property"], summary=meta.get("summary", ""), checks=res,
-                              detected=any(v["exit"] == 1 for v in res.values()))
-            json.dump(results, open(os.path.join(SEEDED, "RESULTS.json"), "w"), indent=1)
-        finally:
-            sh("git -C /repo checkout -- .")
-            sh("git -C /repo clean -fdq -- rusl tiny-std tiny-start tiny-cli")
+        binds = [f"mount --bind {repo_copy} /repo"]
+        for b in BIND_DIRS:
+            src = os.path.join(SCRATCH, b)
+            os.makedirs(src, exist_ok=True)
+            os.makedirs(os.path.join(ROOT, b), exist_ok=True)
+            binds.append(f"mount --bind {src} {os.path.join(ROOT, b)}")
+        res = {}
+        for p in props:
+            t0 = time.time()
+            script = " && ".join(binds) + f" && cd {ROOT} && ./check {p} --tier quick"
+            r = sh(f"unshare -m bash -c '{script}'", timeout=1800)
+            keys = [l.split("key=")[1].split()[0] for l in r.stdout.splitlines() if l.strip().startswith("key=")]
+            res[p] = dict(exit=r.returncode, keys=keys, wall_s=round(time.time() - t0, 1),
+                          tail=r.stdout.strip().splitlines()[-1][:300] if r.stdout.strip() else "")
+        results[n] = dict(property=meta["property"], summary=meta.get("summary", ""), repo_head=head, checks=res,
+                          detected=any(v["exit"] == 1 for v in res.values()))
+        json.dump(results, open(os.path.join(SEEDED, "RESULTS.json"), "w"), indent=1)
         det = results[n].get("detected")
-        print(f"{n:28s} {'DETECTED' if det else 'missed  '} " + " ".join(f"{p}:exit{v['exit']}:{','.join(v['keys'][:3])}" for p, v in results[n]["checks"].items()))
-    assert repo_clean(), "/repo not clean after seed test!"
-    json.dump(results, open(os.path.join(SEEDED, "RESULTS.json"), "w"), indent=1)
+        print(f"{n:28s} {'DETECTED' if det else 'missed  '} " + " ".join(f"{p}:exit{v['exit']}:{','.join(v['keys'][:3])}" for p, v in results[n]["checks"].items()), flush=True)
+    shutil.rmtree(repo_copy, ignore_errors=True)
     return 0
 
 
